@@ -5,6 +5,7 @@ CONSTANTS
  USizes <- TinyU  VSizes <- TinyV  Pads <- TinyP  FlagSet <- TinyF
  CommonU <- NoValues  CommonV <- NoValues
  FamStreams <- NoValues  FamBase = 3  FamGroups <- NoValues
+ ParkA <- NoValues  ParkB <- NoValues
  Volume = FALSE
  MinSteps = 1  MaxSteps = 7
 VIEW View
